@@ -33,48 +33,49 @@ def Hist.inputs : Hist α → List (Point α)
   | .upd h p => if p.length = h.dim then h.inputs ++ [p] else h.inputs
   | .merge h o => if o.dim = h.dim then h.inputs ++ o.inputs else h.inputs
 
-def run (P : Picker ρ α) : Hist α → ρ → Sketch α × ρ
+def run (c : Cfg) (P : Picker ρ α) : Hist α → ρ → Sketch α × ρ
   | .new k d, r => (init k d, r)
   | .upd h p, r =>
-    let x := run P h r
+    let x := run c P h r
     update P x.2 x.1 p
   | .merge h o, r =>
-    let x := run P h r
-    let y := run P o x.2
-    merge P y.2 x.1 y.1
+    let x := run c P h r
+    let y := run c P o x.2
+    merge c P y.2 x.1 y.1
 
-/-- no merge operand is an "emptied" sketch (`num_retained_ = 0` although `n_ > 0`) -/
-def Hist.noEmptiedOperand (P : Picker ρ α) : Hist α → ρ → Prop
+/-- no merge skips an operand that has seen points (with the pinned tree's test: no operand is an "emptied" sketch,
+`num_retained_ = 0` although `n_ > 0`; with the test `n_ == 0` this holds trivially) -/
+def Hist.noEmptiedOperand (c : Cfg) (P : Picker ρ α) : Hist α → ρ → Prop
   | .new _ _, _ => True
-  | .upd h _, r => h.noEmptiedOperand P r
+  | .upd h _, r => h.noEmptiedOperand c P r
   | .merge h o, r =>
-    h.noEmptiedOperand P r ∧ o.noEmptiedOperand P (run P h r).2 ∧
-    ((run P o (run P h r).2).1.numRetained = 0 → (run P o (run P h r).2).1.n = 0)
+    h.noEmptiedOperand c P r ∧ o.noEmptiedOperand c P (run c P h r).2 ∧
+    (mergeSkips c (run c P o (run c P h r).2).1 = true → (run c P o (run c P h r).2).1.n = 0)
 
 /-- every sketch merged in anywhere in the tree was itself still in exact mode (one level) when merged -/
-def Hist.operandsExact (P : Picker ρ α) : Hist α → ρ → Prop
+def Hist.operandsExact (c : Cfg) (P : Picker ρ α) : Hist α → ρ → Prop
   | .new _ _, _ => True
-  | .upd h _, r => h.operandsExact P r
+  | .upd h _, r => h.operandsExact c P r
   | .merge h o, r =>
-    h.operandsExact P r ∧ o.operandsExact P (run P h r).2 ∧ (run P o (run P h r).2).1.levels.length = 1
+    h.operandsExact c P r ∧ o.operandsExact c P (run c P h r).2 ∧ (run c P o (run c P h r).2).1.levels.length = 1
 
 instance Hist.decValid (m : Nat) : (h : Hist α) → Decidable (h.valid m)
   | .new k _ => inferInstanceAs (Decidable (m ≤ k))
   | .upd h _ => Hist.decValid m h
   | .merge h o => @instDecidableAnd _ _ (Hist.decValid m h) (Hist.decValid m o)
 
-instance Hist.decNoEmptied (P : Picker ρ α) : (h : Hist α) → (r : ρ) → Decidable (h.noEmptiedOperand P r)
+instance Hist.decNoEmptied (c : Cfg) (P : Picker ρ α) : (h : Hist α) → (r : ρ) → Decidable (h.noEmptiedOperand c P r)
   | .new _ _, _ => inferInstanceAs (Decidable True)
-  | .upd h _, r => Hist.decNoEmptied P h r
+  | .upd h _, r => Hist.decNoEmptied c P h r
   | .merge h o, r =>
-    @instDecidableAnd _ _ (Hist.decNoEmptied P h r)
-      (@instDecidableAnd _ _ (Hist.decNoEmptied P o (run P h r).2) inferInstance)
+    @instDecidableAnd _ _ (Hist.decNoEmptied c P h r)
+      (@instDecidableAnd _ _ (Hist.decNoEmptied c P o (run c P h r).2) inferInstance)
 
-instance Hist.decOperandsExact (P : Picker ρ α) : (h : Hist α) → (r : ρ) → Decidable (h.operandsExact P r)
+instance Hist.decOperandsExact (c : Cfg) (P : Picker ρ α) : (h : Hist α) → (r : ρ) → Decidable (h.operandsExact c P r)
   | .new _ _, _ => inferInstanceAs (Decidable True)
-  | .upd h _, r => Hist.decOperandsExact P h r
+  | .upd h _, r => Hist.decOperandsExact c P h r
   | .merge h o, r =>
-    @instDecidableAnd _ _ (Hist.decOperandsExact P h r)
-      (@instDecidableAnd _ _ (Hist.decOperandsExact P o (run P h r).2) inferInstance)
+    @instDecidableAnd _ _ (Hist.decOperandsExact c P h r)
+      (@instDecidableAnd _ _ (Hist.decOperandsExact c P o (run c P h r).2) inferInstance)
 
 end DS.Density
